@@ -263,7 +263,7 @@ func checkC15(w *World) {
 		})
 		w.check(P, "R15.6", "ReadHtml returns the parser's error", rh.Pos(), ok, fmt.Sprintf("%v", ok))
 	}
-	w.floor(P, "R15.6", 3)
+	w.floorSites(P, "R15.6", 3)
 	// the root is its own parent with position 0: the evaluator's root tests and the store's surplus-end handling rely on it
 	w.include(P, "C10", "R10.7")
 }
@@ -435,7 +435,7 @@ func (w *World) reflectGuards(P string) {
 			}
 		})
 	}
-	w.floor(P, "R15.1", 5)
+	w.floorSites(P, "R15.1", 5)
 	_ = nUser
 	_ = nSet
 }
@@ -542,7 +542,7 @@ func (w *World) boundsDiscipline(P string, f *Facts, r *Roles) {
 			}
 		})
 	})
-	w.floor(P, "R15.3", 20)
+	w.floorSites(P, "R15.3", 20)
 	_ = n
 }
 
@@ -1085,7 +1085,7 @@ func checkC19(w *World) {
 			}
 		}
 	}
-	w.floor(P, "R19.1", 14)
+	w.floorSites(P, "R19.1", 14)
 
 	// R19.2 shape checks
 	for g := range closure {
@@ -1154,7 +1154,7 @@ func checkC19(w *World) {
 		o.Rule = "R19.5"
 	}
 	delete(w.floors, P+"|R15.1")
-	w.floor(P, "R19.5", 5)
+	w.floorSites(P, "R19.5", 5)
 	docRule(P, "R19.5", "D reflect guards", "targets that cannot be filled produce an error, never a panic: the reflect.Value of the user's target is asked for its Type only under IsValid, dereferenced only under !IsNil, addressed only under CanAddr, and set only under CanSet and an assignability test (same obligations as C15 R15.1).")
 
 	// R19.3 tag guard
